@@ -436,15 +436,20 @@ def ex_IfExp(self, node, fr):
         return self.ev(node.body, fr)
     if c.key == FALSE.key:
         return self.ev(node.orelse, fr)
-    # each arm is evaluated under its condition (events carry it) and on its own copy of the state
+    return eval_cases(self, fr, c, lambda: self.ev(node.body, fr), lambda: self.ev(node.orelse, fr))
+
+
+def eval_cases(self, fr, c, then, other):
+    """value of `then() if c else other()`: each arm is evaluated under its condition (events carry it) and on its own
+    copy of the state"""
     env0, heap0 = fr.env, self.heap
     outs = []
-    for cond, sub in ((c, node.body), (T.mk_not(c), node.orelse)):
+    for cond, thunk in ((c, then), (T.mk_not(c), other)):
         fr.env, self.heap = dict(env0), dict(heap0)
         self.pc.append(cond)
         npend = len(self.pending)
         try:
-            v = self.ev(sub, fr)
+            v = thunk()
         finally:
             self.pc.pop()
         # a raising call inside one arm stops the statement only on that arm
@@ -582,27 +587,67 @@ def ex_Lambda(self, node, fr):
     return self.make_closure(fi, fr)
 
 
+def small_range_items(it, limit=4):
+    """range(a, b, s) with constant bounds and at most `limit` items: the items, else None"""
+    at = it.single_atom()
+    if at is None or at.kind != 'call' or at.args[0] != 'range' or at.args[2] or not 1 <= len(at.args[1]) <= 3:
+        return None
+    cs = [x.const() for x in at.args[1]]
+    if any(c is None or c.denominator != 1 for c in cs):
+        return None
+    r = range(*[int(c) for c in cs])
+    if len(r) > limit:
+        return None
+    return [Term.num(i) for i in r]
+
+
 def _comp(self, node, fr, kind):
     env0 = fr.env
     # a comprehension over a short literal sequence is the literal list of its elements
     if kind in ('list', 'gen') and len(node.generators) == 1 and not node.generators[0].ifs:
         it0 = self.ev(node.generators[0].iter, fr)
         ia = it0.single_atom()
-        if ia is not None and ia.kind in ('list', 'tuple') and len(ia.args) <= 4:
+
+        def literal(a_):
+            return a_ is not None and a_.kind in ('list', 'tuple') and len(a_.args) <= 4
+        rng_items = small_range_items(it0)
+        if rng_items is not None:
+            it0 = T.mk_tuple(rng_items)
+            ia = it0.single_atom()
+
+        def unrolled(items):
             out = []
             try:
-                for item in ia.args:
+                for item in items:
                     fr.env = dict(env0)
                     self.assign(node.generators[0].target, item, fr, node, quiet=True)
                     out.append(self.ev(node.elt, fr))
             finally:
                 fr.env = env0
             return T.mk_tuple(out, 'list')
+        if literal(ia):
+            return unrolled(ia.args)
+        if ia is not None and ia.kind == 'comp' and ia.args[0] in ('list', 'gen') and len(ia.args[2]) == 1 and kind in ('list', 'gen'):
+            ga = ia.args[2][0].single_atom()
+            if ga is not None and ga.kind == 'tuple' and len(ga.args) == 1:
+                # [g(p) for p in [f(a) for a in A]]  ==  [g(f(a)) for a in A]
+                try:
+                    fr.env = dict(env0)
+                    self.assign(node.generators[0].target, ia.args[1], fr, node, quiet=True)
+                    elt = self.ev(node.elt, fr)
+                finally:
+                    fr.env = env0
+                return Term.of(Atom('comp', kind, elt, ia.args[2]))
+        if ia is not None and ia.kind == 'ite' and literal(ia.args[1].single_atom()) and literal(ia.args[2].single_atom()):
+            # [f(x) for x in (A if c else B)]  ==  [f(a) ...] if c else [f(b) ...]
+            return T.mk_ite(ia.args[0], unrolled(ia.args[1].single_atom().args), unrolled(ia.args[2].single_atom().args))
+    else:
+        it0 = None
     fr.env = dict(env0)
     gens = []
     try:
         for g in node.generators:
-            it = self.ev(g.iter, fr)
+            it = it0 if (it0 is not None and g is node.generators[0]) else self.ev(g.iter, fr)
             lid = f'C{node.lineno}:{node.col_offset}:{len(gens)}'
             tv, idx = self._loop_target(it, lid)
             self.assign(g.target, tv, fr, node, quiet=True)
